@@ -339,7 +339,9 @@ USE_MODULES = {"clematis.engine.snapshot": set(), "clematis.io.log": {"_append_j
 # (temp-directory housekeeping is not a write of an artefact)
 EXPORT_MODULES = ("clematis.scripts.export_logs_for_frontend", "clematis.scripts.console")
 # stand-alone scripts outside the package that write snapshot artefacts (parsed ad hoc: they are not part of the program model)
-EXTRA_SCRIPTS = {"scripts/mem_compact.py": "compacted snapshots (snapshot-<etag>.full.json[.zst])"}
+EXTRA_SCRIPTS = {"scripts/mem_compact.py": "compacted snapshots (snapshot-<etag>.full.json[.zst])",
+                 # a full copy of clematis/scripts/console.py outside the package (the other root scripts are import shims)
+                 "scripts/console.py": "console run bundles (--out run.json, a JSON export)"}
 
 
 def rule_use(ctx) -> None:
